@@ -355,6 +355,9 @@ func (dht *IpfsDHT) getValues(ctx context.Context, key string, stopQuery chan st
 					Val:  val,
 					From: p,
 				}:
+				case <-stopQuery:
+					// the search was stopped (quorum reached): nobody reads valCh any more
+					return peers, nil
 				case <-ctx.Done():
 					return nil, ctx.Err()
 				}
